@@ -1,6 +1,7 @@
 // drv_tmpl.cpp -- template rendering driver (C01, C02, C17).
 // case line:  <width 0..3> <mode> <template units> <value as JSON text units (ASCII)>
 //   mode 0  fresh render into an empty stream
+//   mode 3  C01: the Finder alone (matches and offsets)
 //   mode 1  C17: fresh render, then through one tag cache reused 3 times (the
 //           second time with a different value, the third into a stream that
 //           already holds text); value and template compared before/after;
@@ -12,8 +13,28 @@
 
 using namespace Qentem;
 
+// mode 3: the Finder alone: every (match, offset) pair Next() reports, flattened
+template <typename C>
+static std::string scan_case(const std::vector<vf::u64> &tmpl) {
+    vf::ExactBuf<C>                        tb(tmpl);
+    Finder<Tags::List<C>, C, SizeT>        finder{(const C *)tb.p, (SizeT)tb.n};
+    std::vector<vf::u64>                   out;
+    size_t                                 guard = 0;
+    finder.Next();
+    while (finder.GetMatch() != 0U && guard++ <= tmpl.size() + 2) {
+        out.push_back(finder.GetMatch());
+        out.push_back(finder.GetOffset());
+        finder.Next();
+    }
+    if (out.empty()) return "-";
+    std::string r;
+    for (size_t i = 0; i < out.size(); i++) r += (i ? "," : "") + std::to_string(out[i]);
+    return r;
+}
+
 template <typename C>
 static std::string run_case(int mode, const std::vector<vf::u64> &tmpl, const std::vector<vf::u64> &json) {
+    if (mode == 3) return scan_case<C>(tmpl);
     vf::ExactBuf<C> jb(json);
     Value<C>        v = JSON::Parse((const C *)jb.p, (SizeT)jb.n);
     vf::ExactBuf<C> tb(tmpl);
